@@ -40,6 +40,7 @@ def within(d, c):
 #   ["d", s, t, cut, ud, obj] shortest_distance · ["l", s, cut, ud, obj] list form · ["a", cut, ud] all_shortest_distances
 #   ["p", cut] prepare · ["q", s, t, obj] prepared_shortest_distance · ["h", s, t, obj] has_prepared_shortest_distance
 #   ["s", s, cut, obj] sub_network(TOPOLOGIC) [+ a search on every node of the returned network, which shares the Node objects]
+#   ["v"] save_prep(file) then load_prep(file)
 # cut: "none" or a number token; ud: 1 = the caller's dictionary is passed as output_dict; obj: 0 ids, 1 the network's Node
 # objects, 2 fresh Node objects with the same ids
 # ---------------------------------------------------------------------------------------------------
@@ -69,7 +70,7 @@ def sess_valid(case):
                 return False
         elif k == "p":
             prepared = True
-        elif k in ("q", "h"):
+        elif k in ("q", "h", "v"):
             if not prepared:
                 return False
     return True
@@ -107,6 +108,8 @@ def random_session(rng):
             ops.append(["a", cut(), rng.choice([0, 1])])
         elif r < 0.82:
             ops.append(["p", cut()]); prepared = True
+        elif r < 0.84 and prepared:
+            ops.append(["v"])
         elif r < 0.91 and prepared:
             ops.append([rng.choice(["q", "q", "h"]), rng.choice(nodes), rng.choice(nodes), obj()])
         else:
@@ -118,7 +121,7 @@ def random_session(rng):
 def json_op(op):
     return "%s(%s)" % ({"n": "addNode", "e": "addEdge", "r": "run_routing_forward", "d": "shortest_distance", "l": "shortest_distance[list]",
                         "a": "all_shortest_distances", "p": "prepare", "q": "prepared_shortest_distance",
-                        "h": "has_prepared_shortest_distance", "s": "sub_network"}[op[0]], ",".join(str(x) for x in op[1:]))
+                        "h": "has_prepared_shortest_distance", "s": "sub_network", "v": "save_prep+load_prep"}[op[0]], ",".join(str(x) for x in op[1:]))
 
 
 def dtok(x):
@@ -169,7 +172,8 @@ class P(Prop):
     open_statements = ["float weights: the theorems need only a linear order, a + 0 = a, 0 <= w -> a <= a + w and a <= b -> a + w <= b + w (no associativity: code and Walk both add from the source outwards), "
                        "which IEEE round-to-nearest addition has on non-NaN doubles; they are stated with Mathlib's ordered-monoid classes, so the instance for IEEE doubles is not constructed in Lean "
                        "(the float stream compares with exact rational distances at 1e-9 relative)",
-                       "save_prep / load_prep (numpy pickle of DISTANCES), sub_network in GEOMETRIC mode and A* mode are outside the model"]
+                       "save_prep / load_prep are modelled as 'the dictionary read back is the dictionary written' (numpy's pickle is exercised by the sessions, not modelled); "
+                       "sub_network in GEOMETRIC mode and A* mode are outside the model"]
     modelled = ("Network.addNode / addEdge (NEXT_EDGES by orientation), __resetFlags, run_routing_forward in Dijkstra mode (pop by (poids, node id), stop tests "
                 "before recording, 'other end' rule, visite guard, strict < relaxation, output_dict), shortest_distance (pair and list form, ids or Node objects, with output_dict), "
                 "all_shortest_distances (fresh or caller's dictionary), prepare, prepared_shortest_distance, has_prepared_shortest_distance, sub_network (TOPOLOGIC) — "
@@ -187,7 +191,7 @@ class P(Prop):
             "Random set/pop sequences on priority_dict alone (ties, lowered and raised priorities, pops on empty), comparing results and the _heap list position by position; "
             "random heapify/heappush/heappop sequences on lists of (priority, key) tuples with ties against Python's heapq, list compared position by position. "
             "Sessions: random sequences of 4-22 calls on ONE Network object with <= 6 nodes (addNode, addEdge interleaved with shortest_distance in pair/list form, run_routing_forward with "
-            "the flags read back, all_shortest_distances, prepare/prepared/has_prepared, sub_network followed by searches on the returned network that shares the Node objects; "
+            "the flags read back, all_shortest_distances, prepare/prepared/has_prepared, save_prep+load_prep through a temporary file, sub_network followed by searches on the returned network that shares the Node objects; "
             "cut-offs none/0/.5/1/2/3/5; ids, the network's Node objects or fresh equal Node objects as arguments; a caller's dictionary passed repeatedly as output_dict), every answer "
             "checked against Floyd-Warshall on the graph as built so far. "
             "Several (2-3) small networks alive at the same time with their calls interleaved. Every case is evaluated on freshly executed definitions of network.py / utils.py "
@@ -422,6 +426,17 @@ class P(Prop):
                     r = ["v", dtok(net.prepared_shortest_distance(arg(op[1], op[3]), arg(op[2], op[3])))]
                 elif k == "h":
                     r = ["b", 1 if net.has_prepared_shortest_distance(arg(op[1], op[3]), arg(op[2], op[3])) else 0]
+                elif k == "v":
+                    import tempfile, os
+                    fd, path = tempfile.mkstemp(suffix=".npy")
+                    os.close(fd)
+                    try:
+                        net.save_prep(path)
+                        net.DISTANCES = None
+                        net.load_prep(path)
+                    finally:
+                        os.remove(path)
+                    r = "ok"
                 elif k == "s":
                     sub = net.sub_network(arg(op[1], op[3]), 1e300 if op[2] == "none" else nc.pynum(op[2]), verbose=False)
                     ids = sub.getNodesId()
@@ -547,6 +562,8 @@ class P(Prop):
                     toks.append("%s,%d,%d" % (k, op[1], op[2]))
                 elif k == "s":
                     toks.append("s,%d,%s" % (op[1], ct(op[2])))
+                elif k == "v":
+                    toks.append("v")
                 if (k in "rd" and op[4]) or (k == "l" and op[3]) or (k == "a" and op[2]):
                     toks.append("u")
             return ["C06.sess %d %s" % (case["n"], ";".join(toks) or "_")]
